@@ -5,6 +5,7 @@ mod known;
 mod monitors;
 mod monitors2;
 mod monitors3;
+mod monitors4;
 mod script2;
 mod script3;
 mod genstats;
